@@ -60,92 +60,89 @@ theorem zero_le_iff (a : Int64) : 0 ≤ a ↔ 0 ≤ a.toInt := Int64.le_iff_toIn
 
 /-- The arithmetic tail of `substr`/`subraw` once string, position and count are in hand (`c ≠ 0`). -/
 def substrTail (s : Bytes) (a0 b0 : Int64) : Res Bytes :=
-  (if a0 < 0 then sadd a0 (lenI s) else .ok a0) >>= fun a =>
-  ssub (lenI s) a >>= fun d =>
-  if a ≥ 0 && imax (imin b0 d) 0 > 0 then .ok (sliceBytes s a (imax (imin b0 d) 0)) else .ok []
+  substrRange (lenI s) a0 b0 >>= fun ab =>
+  if ab.1 ≥ 0 && ab.2 > 0 then .ok (sliceBytes s ab.1 ab.2) else .ok []
 
-theorem slice_spec (s : Bytes) (a d b0 : Int64) (c A : Int) (hA : a.toInt = A) (hd : d.toInt = c - A) :
-    (if (decide (a ≥ 0) && decide (imax (imin b0 d) 0 > 0)) = true then Res.ok (sliceBytes s a (imax (imin b0 d) 0)) else Res.ok []) =
-      Res.ok (if 0 ≤ A then (s.drop A.toNat).take (max (min b0.toInt (c - A)) 0).toNat else []) := by
-  have hb : (imax (imin b0 d) 0).toInt = max (min b0.toInt (c - A)) 0 := by
-    rw [imax_toInt, imin_toInt, hd]; rfl
+/-- The signed index arithmetic of builtin_substr.cpp never overflows (for a length `c ≥ 0`, as every
+`size()` stored into an `int64_t` is) and computes, on mathematical integers: the adjusted position
+`A = a0 < 0 ? a0 + c : a0` and the count `A < 0 ? 0 : max(min(b, c − A), 0)` — for ALL `a0`, `b`,
+INT64_MIN included (the guard `a < 0 ? 0 : …` of commit e2c4824 keeps `c - a` from being computed). -/
+theorem substrRange_spec (c a0 b : Int64) (hc : 0 ≤ c.toInt) :
+    ∃ a b', substrRange c a0 b = .ok (a, b') ∧
+      a.toInt = (if a0.toInt < 0 then a0.toInt + c.toInt else a0.toInt) ∧
+      b'.toInt = (if a.toInt < 0 then 0 else max (min b.toInt (c.toInt - a.toInt)) 0) := by
+  have hc2 := Int64.toInt_lt c
+  have ha1 := Int64.le_toInt a0
+  have ha2 := Int64.toInt_lt a0
+  unfold substrRange
+  by_cases hneg : a0 < 0
+  · have hn := (lt_zero_iff a0).mp hneg
+    have hr : -2 ^ 63 ≤ a0.toInt + c.toInt ∧ a0.toInt + c.toInt < 2 ^ 63 := by omega
+    have hat := toInt_add_of_range _ _ hr
+    simp only [hneg, if_true, sadd_eq, hr, and_self, Res.ok_bind]
+    by_cases hneg2 : a0 + c < 0
+    · have hn2 := (lt_zero_iff _).mp hneg2
+      refine ⟨a0 + c, 0, by simp only [hneg2, if_true, Res.pure_eq], by rw [hat, if_pos hn], ?_⟩
+      rw [if_pos hn2]; rfl
+    · have hn2 : ¬ (a0 + c).toInt < 0 := fun h => hneg2 ((lt_zero_iff _).mpr h)
+      have hr2 : -2 ^ 63 ≤ c.toInt - (a0 + c).toInt ∧ c.toInt - (a0 + c).toInt < 2 ^ 63 := by
+        rw [hat]; omega
+      have hdt := toInt_sub_of_range _ _ hr2
+      refine ⟨a0 + c, imax (imin b (c - (a0 + c))) 0,
+        by simp only [hneg2, if_false, ssub_eq, hr2, and_self, if_true, Res.ok_bind, Res.pure_eq],
+        by rw [hat, if_pos hn], ?_⟩
+      rw [if_neg hn2, imax_toInt, imin_toInt, hdt]; rfl
+  · have hn : ¬ a0.toInt < 0 := fun h => hneg ((lt_zero_iff a0).mpr h)
+    have hr2 : -2 ^ 63 ≤ c.toInt - a0.toInt ∧ c.toInt - a0.toInt < 2 ^ 63 := by omega
+    have hdt := toInt_sub_of_range _ _ hr2
+    refine ⟨a0, imax (imin b (c - a0)) 0,
+      by simp only [hneg, if_false, Res.ok_bind, Res.pure_eq, ssub_eq, hr2, and_self, if_true],
+      by rw [if_neg hn], ?_⟩
+    rw [if_neg hn, imax_toInt, imin_toInt, hdt]; rfl
+
+theorem slice_spec (s : Bytes) (a b' : Int64) (A N : Int) (hA : a.toInt = A) (hb : b'.toInt = N) :
+    (if (decide (a ≥ 0) && decide (b' > 0)) = true then Res.ok (sliceBytes s a b') else Res.ok []) =
+      Res.ok (if 0 ≤ A then (s.drop A.toNat).take N.toNat else []) := by
   have e1 : (a ≥ 0) ↔ 0 ≤ A := by rw [← hA]; exact zero_le_iff a
-  have e2 : (imax (imin b0 d) 0 > 0) ↔ 0 < max (min b0.toInt (c - A)) 0 := by rw [← hb]; exact zero_lt_iff _
+  have e2 : (b' > 0) ↔ 0 < N := by rw [← hb]; exact zero_lt_iff _
   simp only [Bool.and_eq_true, decide_eq_true_eq, e1, e2]
   by_cases h1 : 0 ≤ A
-  · by_cases h2 : 0 < max (min b0.toInt (c - A)) 0
+  · by_cases h2 : 0 < N
     · simp only [h1, h2, and_self, if_true, sliceBytes, Int64.toNatClampNeg, hA, hb]
-    · have : (max (min b0.toInt (c - A)) 0).toNat = 0 := by omega
+    · have : N.toNat = 0 := by omega
       simp [h1, h2, this]
   · simp [h1]
 
-/-- The index arithmetic of `substr` is exactly the specification, for every non-empty string of
-representable length and all positions and counts — except `begin = INT64_MIN`, where `c - a` is
-the signed overflow recorded as C10.substr.signedOverflow. -/
-theorem substrTail_spec (s : Bytes) (hlen : s.length < 2 ^ 63) (hne : s ≠ []) (a0 b0 : Int64) :
-    substrTail s a0 b0 =
-      if a0 = Int64.minValue then .haz .signedOverflow
-      else .ok (Spec.Text.substr s a0.toInt (some b0.toInt)) := by
+/-- The index arithmetic of `substr` is exactly the specification, for every string of representable
+length and ALL positions and counts (negative, oversized, INT64_MIN, INT64_MAX): no exclusion. -/
+theorem substrTail_spec (s : Bytes) (hlen : s.length < 2 ^ 63) (a0 b0 : Int64) :
+    substrTail s a0 b0 = .ok (Spec.Text.substr s a0.toInt (some b0.toInt)) := by
   have hc := lenI_toInt s hlen
-  have hpos : 0 < s.length := List.length_pos_iff.mpr hne
-  have ha1 := Int64.le_toInt a0
-  have ha2 := Int64.toInt_lt a0
+  obtain ⟨a, b', he, hA, hB⟩ := substrRange_spec (lenI s) a0 b0 (by rw [hc]; omega)
   unfold substrTail
-  by_cases hneg : a0 < 0
-  · have hn := (lt_zero_iff a0).mp hneg
-    have hr : -2 ^ 63 ≤ a0.toInt + (lenI s).toInt ∧ a0.toInt + (lenI s).toInt < 2 ^ 63 := by omega
-    simp only [hneg, if_true, sadd_eq, hr, and_self, Res.ok_bind]
-    have hat := toInt_add_of_range _ _ hr
-    by_cases hmin : a0 = Int64.minValue
-    · subst hmin
-      have : ¬ (-2 ^ 63 ≤ (lenI s).toInt - (Int64.minValue + lenI s).toInt ∧ (lenI s).toInt - (Int64.minValue + lenI s).toInt < 2 ^ 63) := by
-        rw [hat, Int64.toInt_minValue]; omega
-      rw [ssub_eq, if_neg this]; rfl
-    · have hm : a0.toInt ≠ -2 ^ 63 := by
-        intro e; apply hmin; apply Int64.toInt_inj.mp; rw [e, Int64.toInt_minValue]
-      have hr2 : -2 ^ 63 ≤ (lenI s).toInt - (a0 + lenI s).toInt ∧ (lenI s).toInt - (a0 + lenI s).toInt < 2 ^ 63 := by
-        rw [hat]; omega
-      have hdt := toInt_sub_of_range _ _ hr2
-      simp only [ssub_eq, hr2, and_self, if_true, Res.ok_bind, hmin, if_false]
-      rw [slice_spec s _ _ b0 s.length (a0.toInt + s.length) (by rw [hat, hc]) (by rw [hdt, hat, hc])]
-      simp only [Spec.Text.substr, hn, if_true, Option.getD_some]
-  · have hn : ¬ a0.toInt < 0 := fun h => hneg ((lt_zero_iff a0).mpr h)
-    have hmin : a0 ≠ Int64.minValue := by
-      intro e; subst e; exact hneg (by decide)
-    have hr2 : -2 ^ 63 ≤ (lenI s).toInt - a0.toInt ∧ (lenI s).toInt - a0.toInt < 2 ^ 63 := by omega
-    have hdt := toInt_sub_of_range _ _ hr2
-    simp only [hneg, if_false, Res.ok_bind, ssub_eq, hr2, and_self, if_true, hmin]
-    rw [slice_spec s _ _ b0 s.length a0.toInt rfl (by rw [hdt, hc])]
-    simp only [Spec.Text.substr, hn, if_false, Option.getD_some]
-
-
+  rw [he, Res.ok_bind]
+  simp only []
+  rw [slice_spec s a b' _ _ hA hB]
+  rw [hA, hc]
+  unfold Spec.Text.substr
+  simp only [Option.getD_some]
+  by_cases hn : a0.toInt < 0
+  · simp only [hn, if_true]
+    by_cases h2 : a0.toInt + (s.length : Int) < 0
+    · have : ¬ (0 ≤ a0.toInt + (s.length : Int)) := by omega
+      simp [this]
+    · simp [h2]
+  · simp only [hn, if_false]
 
 theorem substrTail_bind (mk : Bytes → Val) (s : Bytes) (a0 b0 : Int64) :
     (substrTail s a0 b0 >>= fun r => Res.ok (mk r)) =
-      (if a0 < 0 then do
-          let a ← sadd a0 (lenI s)
-          let d ← ssub (lenI s) a
-          if (decide (a ≥ 0) && decide (imax (imin b0 d) 0 > 0)) = true then
-              Res.ok (mk (sliceBytes s a (imax (imin b0 d) 0)))
-            else Res.ok (mk [])
-        else do
-          let d ← ssub (lenI s) a0
-          if (decide (a0 ≥ 0) && decide (imax (imin b0 d) 0 > 0)) = true then
-              Res.ok (mk (sliceBytes s a0 (imax (imin b0 d) 0)))
-            else Res.ok (mk [])) := by
+      (substrRange (lenI s) a0 b0 >>= fun ab =>
+        if (decide (ab.1 ≥ 0) && decide (ab.2 > 0)) = true then Res.ok (mk (sliceBytes s ab.1 ab.2))
+        else Res.ok (mk [])) := by
   unfold substrTail
-  split
-  · cases sadd a0 (lenI s) with
-    | ok a =>
-      simp only [Res.ok_bind]
-      cases ssub (lenI s) a with
-      | ok d => simp only [Res.ok_bind]; split <;> rfl
-      | _ => rfl
-    | _ => rfl
-  · simp only [Res.ok_bind]
-    cases ssub (lenI s) a0 with
-    | ok d => simp only [Res.ok_bind]; split <;> rfl
-    | _ => rfl
+  cases substrRange (lenI s) a0 b0 with
+  | ok ab => simp only [Res.ok_bind]; split <;> rfl
+  | _ => rfl
 
 /-- `substrLike` in `Res` on three evaluated arguments, in normal form. -/
 theorem substrLike_res3 (major : Major) (nullTy : Ty) (get : Val → Res Bytes) (mk : Bytes → Val) (v0 v1 v2 : Val)
